@@ -128,7 +128,8 @@ unsafe fn level_swap<M: Manager>(
         // lower level, and keep the original node at the upper level (with the
         // children replaced by the newly created ones).
 
-        let grandchildren: SmallVec<[_; 2]> = children
+        // `None` means that the child is below the lower level
+        let grandchildren: SmallVec<[Option<SmallVec<[_; 2]>>; 2]> = children
             .iter()
             .map(|c| {
                 // A child of a node at the old upper level can only reference
@@ -140,16 +141,17 @@ unsafe fn level_swap<M: Manager>(
                         let children: SmallVec<[_; 2]> =
                             M::Rules::cofactors(c.tag(), node).collect();
                         debug_assert_eq!(children.len(), M::InnerNode::ARITY);
-                        children
+                        Some(children)
                     }
                     node => {
                         // Note that we cannot compare against `lower_no`
                         // here: nodes below may still carry level numbers
                         // from before the reordering operation.
                         debug_assert!(node.level() != upper_no_pre);
-                        // The child is below the lower level, so we always have
-                        // this child
-                        (0..M::InnerNode::ARITY).map(|_| c.borrowed()).collect()
+                        // The child is below the lower level, i.e., it skips
+                        // the lower level. What this means for the cofactors
+                        // depends on the diagram rules.
+                        None
                     }
                 }
             })
@@ -160,7 +162,10 @@ unsafe fn level_swap<M: Manager>(
                 let res = <M::Rules as DiagramRules<_, _, _>>::reduce(
                     manager,
                     upper_no_pre,
-                    grandchildren.iter().map(|v| manager.clone_edge(&v[i])),
+                    grandchildren.iter().zip(&children).map(|(v, c)| match v {
+                        Some(v) => manager.clone_edge(&v[i]),
+                        None => M::Rules::cofactor_skipped(manager, c, i),
+                    }),
                 );
                 match res {
                     ReducedOrNew::Reduced(e) => e,
